@@ -28,4 +28,6 @@ class PadSequencesCollator(KDSingleCollator):
             return tuple(result)
         elif isinstance(batch[0], dict):
             return default_collate(batch)
+        if not (torch.is_tensor(batch[0]) and batch[0].ndim > 0):
+            return default_collate(batch)
         return pad_sequence(batch, batch_first=True)
